@@ -595,7 +595,7 @@ def job_patterns(structure):
 def jobs(tier):
     q = tier == 'quick'
     js = []
-    for st in (['PON', 'PONONPON'] if q else ['PON', 'PONONPON', 'PONNON', 'PONPONN']):
+    for st in (['PON', 'PONONPON', 'PONPON'] if q else ['PON', 'PONONPON', 'PONPON', 'PONNON', 'PONPONN', 'PONPONONPON']):
         js.append(job_patterns(list(st)))
     shapes = [(0, 1, 1, 1, 1, 1, 0), (1, 1, 1, 2, 1, 3, 1), (0, 2, 2, 1, 1, 2, 1)] if q else \
              [(0, 1, 1, 1, 1, 1, 0), (1, 1, 1, 2, 1, 3, 1), (0, 2, 2, 1, 1, 2, 1), (1, 2, 1, 2, 2, 4, 1), (2, 3, 1, 1, 1, 5, 0)]
